@@ -580,13 +580,8 @@ func ({short_name} {full_name}) MarshalJSON() ([]byte, error) {{
 fn write_comment(w: &mut dyn Write, indent: usize, comment: &str) -> std::io::Result<()> {
     // one doc string can span several lines (block doc comments, `#[doc = ".."]`): every line
     // has to be a comment of its own
-    for line in comment.split('\n') {
-        writeln!(
-            w,
-            "{}// {}",
-            "\t".repeat(indent),
-            line.trim_end_matches('\r')
-        )?;
+    for line in super::comment_lines(comment) {
+        writeln!(w, "{}// {}", "\t".repeat(indent), line)?;
     }
     Ok(())
 }
